@@ -7,16 +7,12 @@
 // poison, whether the receiver destroys the operation inside its completion)
 // is decoded from the case bytes.
 #include "exprfuzz/runner.hpp"
+#include "exprfuzz/plan.hpp"
 
 #include <set>
 #include <sstream>
 
 namespace ef {
-
-static bool known(const char* sig) {
-  std::string k = "," + vk::ctx().arg("known") + ",";
-  return k.find(std::string(",") + sig + ",") != std::string::npos;
-}
 
 static bool g_compare = true;      // model comparison active for this run
 static bool g_diverged = false;
@@ -270,90 +266,6 @@ void end_run(const ShapeDesc& sd, RunCtl& ctl, RunState& rs) {
   for (auto& kv : sorted) ss << " " << kv.first << ":" << kv.second;
   o.summary = ss.str();
   sr::world_ptr() = nullptr;
-}
-
-// ------------------------------------------------------------------ decode a plan for a shape
-
-static Plan decode_plan(const ShapeDesc& sd, vk::Choice& c) {
-  Plan p;
-  p.spec.resize((size_t)sd.nleaves);
-  // which leaves sit below a retry_when source (their last attempt must not be an error, or the case would not terminate)
-  std::vector<bool> under_retry((size_t)sd.nleaves, false), unstoppable((size_t)sd.nleaves, false), embedded_src((size_t)sd.nleaves, false);
-  std::vector<int> leaf_kind((size_t)sd.nleaves, 0);
-  std::function<void(int, bool, bool, bool)> walk = [&](int idx, bool ur, bool us, bool es) {
-    const NodeDesc& n = sd.nodes[idx];
-    if (n.kind == K_LEAF_AI) leaf_kind[(size_t)n.a] = 1;
-    if (n.kind == K_LEAF_ND) leaf_kind[(size_t)n.a] = 2;
-    if (n.kind == K_LEAF || n.kind == K_LEAFV || n.kind == K_LEAF_AI || n.kind == K_LEAF_ND) { under_retry[(size_t)n.a] = under_retry[(size_t)n.a] || ur; unstoppable[(size_t)n.a] = unstoppable[(size_t)n.a] || us; embedded_src[(size_t)n.a] = embedded_src[(size_t)n.a] || es; }
-    for (int i = 0; i < n.nchild; ++i) walk(n.child[i], ur || (n.kind == K_RETRY_WHEN), us || (n.kind == K_UNSTOPPABLE), es || n.kind == K_ANY || n.kind == K_LVWSS);
-  };
-  walk(sd.root, false, false, false);
-  // KNOWN FINDING stop_source_destroyed_in_callback: an operation that embeds its own inplace_stop_source
-  // (let_value_with_stop_source's fused source, any_sender_of's token adapter) is destroyed while that source's
-  // request_stop() is still on the stack when a child completes synchronously inside its stop callback.
-  // Excluded by construction: such leaves answer a stop request with a *deferred* done instead.
-  const bool exclude_embedded = known("stop_source_destroyed_in_callback");
-  std::string t;
-  for (int l = 0; l < sd.nleaves; ++l) {
-    sr::LeafSpec& s = p.spec[(size_t)l];
-    int na = 1 + (int)c.upto(3);
-    for (int a = 0; a < na; ++a) {
-      sr::LeafSpec::Attempt at;
-      unsigned o = c.upto(20);
-      at.chan = o < 10 ? sr::VALUE : o < 13 ? sr::ERROR : o < 15 ? sr::ERROR : sr::DONE;
-      at.errkind = 0;
-      unsigned tm = c.upto(20);
-      at.timing = tm < 8 ? 0 : tm < 17 ? 1 : 2;
-      // a leaf that completes only in reaction to stop but can never see one (below unstoppable()) would never
-      // complete; tearing down a running operation is not a legal thing for the harness to do
-      if (at.timing == 2 && unstoppable[(size_t)l]) at.timing = 1;
-      if (leaf_kind[(size_t)l] == 1) at.timing = 0;                                   // declared always_inline: the harness leaf honours its own trait
-      if (leaf_kind[(size_t)l] == 2 && at.chan == sr::DONE) at.chan = sr::VALUE;      // declared sends_done == false
-      at.ctx = (int)c.upto(4);
-      if (a == na - 1 && under_retry[(size_t)l] && at.chan == sr::ERROR) at.chan = sr::VALUE;
-      s.attempts.push_back(at);
-    }
-    unsigned os = c.upto(20);
-    s.on_stop = os < 6 ? 0 : os < 15 ? 1 : 2;
-    s.stop_root_in_start = c.chance(1, 16);
-    if (leaf_kind[(size_t)l] == 1 && s.on_stop == 2) s.on_stop = 1;   // an always_inline leaf may only complete inside start()
-    if (leaf_kind[(size_t)l] == 2) { s.on_stop = 0; for (auto& at : s.attempts) if (at.timing == 2) at.timing = 1; }
-    for (auto& at : s.attempts) if (at.timing == 2 && s.on_stop == 0) s.on_stop = 1;
-    if (exclude_embedded && embedded_src[(size_t)l] && s.on_stop == 1) { s.on_stop = 2; vk::ctx().label("altered-by-known-finding:stop_source_destroyed_in_callback"); }
-    t += vk::sfmt("L%d{", l);
-    for (auto& at : s.attempts) t += vk::sfmt("%s%s/%s/ctx%d ", sr::chan_name(at.chan), at.chan == sr::ERROR ? (at.errkind ? ":Err" : ":exc") : "", at.timing == 0 ? "inline" : at.timing == 1 ? "deferred" : "on-stop-only", at.ctx);
-    t += vk::sfmt("on_stop=%s%s} ", s.on_stop == 0 ? "ignore" : s.on_stop == 1 ? "done-inline" : "done-deferred", s.stop_root_in_start ? " stops-root-in-start" : "");
-  }
-  std::vector<int> callable_nodes;
-  for (int i = 0; i < sd.nnodes; ++i) {
-    const NodeDesc& n = sd.nodes[i];
-    switch (n.kind) {
-      case K_JVOD: p.node_arg[n.nid] = c.chance(3, 4) ? 1 : 0; t += vk::sfmt("n%d=%d ", n.nid, p.node_arg[n.nid]); break;
-      case K_REPEAT: p.node_arg[n.nid] = 1 + (int)c.upto(3); t += vk::sfmt("repeat n%d x%d ", n.nid, p.node_arg[n.nid]); break;
-      case K_VARIANT: p.node_arg[n.nid] = (int)c.upto(2); break;
-      default: break;
-    }
-    switch (n.kind) {
-      case K_THEN: case K_E2V: case K_V2E: case K_UPON_ERROR: case K_UPON_DONE: case K_LET_VALUE: case K_LET_ERROR: case K_LET_DONE:
-      case K_JUST_FROM: case K_RETRY_WHEN: case K_REPEAT: case K_DEFER: callable_nodes.push_back(n.nid); break;
-      default: break;
-    }
-  }
-  p.stop_before_start = c.chance(1, 8);
-  p.stop_tokens = c.chance(11, 20) ? 1 : 0;
-  p.stop_after_completion = c.chance(1, 8);
-  p.destroy_on_completion = c.flag();
-  p.never_start = c.chance(1, 24);
-  static const uint8_t pats[] = {0x00, 0xFF, 0xA5, 0x5A};
-  unsigned pp = c.upto(5); p.poison = pp < 4 ? pats[pp] : (uint8_t)c.upto(256);
-  unsigned f = c.upto(20);
-  if (f >= 12 && f < 17 && !callable_nodes.empty()) { p.fault_node = callable_nodes[c.upto((uint32_t)callable_nodes.size())]; p.fault_call = (int)c.upto(2); }
-  else if (f >= 17) { p.anon_fault = (long)c.upto(48); }
-  t += vk::sfmt("| stop:%s%s%s destroy_in_completion=%d%s poison=%02x", p.stop_before_start ? "before-start " : "", p.stop_tokens ? "as-event " : "", p.stop_after_completion ? "after-completion " : "", (int)p.destroy_on_completion, p.never_start ? " NEVER-STARTED" : "", p.poison);
-  if (p.fault_node >= 0) t += vk::sfmt(" fault:callable(n%d,call%d)", p.fault_node, p.fault_call);
-  if (p.anon_fault >= 0) t += vk::sfmt(" fault:throw-point#%ld", p.anon_fault);
-  p.text = t;
-  return p;
 }
 
 }  // namespace ef
